@@ -1,6 +1,7 @@
 package main
 
 import (
+	"sync"
 	"bufio"
 	"bytes"
 	"fmt"
@@ -56,6 +57,15 @@ func loadRdb(img []byte, chunk int) (res string) {
 		}
 		if e == nil {
 			break
+		}
+		// every emitted value is a DUMP payload that must verify under both checkers
+		if e.Type != 250 {
+			if cup.VerifVerifyDump(e.Value) != nil {
+				return "err:payload-checksum"
+			}
+			if _, _, err := utils.CheckVersionChecksum(e.Value); err != nil {
+				return "err:payload-checksum"
+			}
 		}
 		n++
 	}
@@ -134,6 +144,26 @@ func probeC11(c []string, out *bufio.Writer) {
 			chunk, _ = strconv.Atoi(c[3])
 		}
 		fmt.Fprintf(out, "%s %s\n", c[0], loadRdb(unhex(c[2]), chunk))
+	case "rdbpar": // rdbpar <image> <image> ...: all images loaded concurrently, 20 rounds; one result per image
+		res := make([]string, len(c)-2)
+		for i := range res {
+			res[i] = "ok"
+		}
+		var wg sync.WaitGroup
+		for i, h := range c[2:] {
+			wg.Add(1)
+			go func(i int, img []byte) {
+				defer wg.Done()
+				for round := 0; round < 20; round++ {
+					if r := loadRdb(img, 0); !strings.HasPrefix(r, "ok") {
+						res[i] = r
+						return
+					}
+				}
+			}(i, unhex(h))
+		}
+		wg.Wait()
+		fmt.Fprintf(out, "%s %s\n", c[0], strings.Join(res, ","))
 	case "rdbsweep": // rdbsweep <image>: substitutions at every position, truncations of the trailer
 		img := unhex(c[2])
 		acc := 0
